@@ -14,6 +14,7 @@ Inductive rawev :=
 | RHs (p idx key : int)
 | RHsu (p idx key : int)
 | RRestart
+| RRemove (p : int)
 | RAge (p ms : int)                       (* milliseconds *)
 | RDg (l : list rawdg).
 
@@ -51,6 +52,7 @@ Definition dec_ev (r : rawev) : event :=
   | RHs p i k => Handshake (ni p) (ni i) (ni k)
   | RHsu p i k => HandshakeUnconf (ni p) (ni i) (ni k)
   | RRestart => Restart
+  | RRemove p => Remove (ni p)
   | RAge p s => Age (ni p) (ni s * 1000000)
   | RDg l => Dgrams (map dec_dg l)
   end.
@@ -88,7 +90,7 @@ Definition opt_fail (k : N) (o : option N) : list (N * N) :=
   match o with Some i => [(k, i)] | None => [] end.
 
 Definition init_state (t : list entry) (np : N) : state :=
-  {| s_tbl := t; s_peers := repeat {| k_prev := None; k_cur := None; k_next := None |} (N.to_nat np) |}.
+  {| s_tbl := t; s_peers := repeat {| k_prev := None; k_cur := None; k_next := None |} (N.to_nat np); s_gone := [] |}.
 
 Definition check_case (c : case) : list (N * N) :=
   match c with
@@ -98,8 +100,10 @@ Definition check_case (c : case) : list (N * N) :=
       let np := ni npeers in
       let es := map dec_ev evs in
       let ob := map dec_obs obs in
-      opt_fail 1 (cmp_steps np (outs step (init_state t np) es) ob 0) ++
-      opt_fail 2 (holds_trace (effective t) np [] es (map fst ob) 0)
+      (* the model starts from the table the configuration denotes (a prefix assigned twice belongs to the later
+         peer only): removing that peer must not resurrect the earlier assignment *)
+      opt_fail 1 (cmp_steps np (outs step (init_state (effective t) np) es) ob 0) ++
+      opt_fail 2 (holds_trace (effective t) np [] [] es (map fst ob) 0)
   | Crashed => [(1, 0)]
   end.
 
@@ -114,7 +118,7 @@ Fixpoint check_cases (ks : list case) (idx : N) : list (N * N * N) :=
    [0 not transport / too short; 1 unknown index; 2 keypair expired; 3 does not authenticate;
     4 replayed or behind the window; 5 keepalive; 6 IPv4 length/header refused; 7 IPv6 length/header refused;
     8 other version nibble; 9 source not allowed; 10 written; 11 handshakes; 12 age shifts;
-    13 unconfirmed handshakes; 14 restarts; 15 accepted under the unconfirmed key (promotion)] *)
+    13 unconfirmed handshakes; 14 restarts; 15 accepted under the unconfirmed key (promotion); 16 peers removed] *)
 Fixpoint bump (l : list N) (i : nat) : list N :=
   match l, i with
   | [], _ => []
@@ -171,14 +175,15 @@ Fixpoint stat_evs (st : state) (evs : list event) (a : list N) : list N :=
   | Handshake p i k :: t => stat_evs (fst (step st (Handshake p i k))) t (bump a 11)
   | HandshakeUnconf p i k :: t => stat_evs (fst (step st (HandshakeUnconf p i k))) t (bump a 13)
   | Restart :: t => stat_evs (fst (step st Restart)) t (bump a 14)
+  | Remove p :: t => stat_evs (fst (step st (Remove p))) t (bump a 16)
   | Age p n :: t => stat_evs (fst (step st (Age p n))) t (bump a 12)
   end.
 
 Definition stats_case (a : list N) (c : case) : list N :=
   match c with
   | Scenario hdr tbl npeers evs obs =>
-      stat_evs (init_state (map dec_entry tbl) (ni npeers)) (map dec_ev evs) a
+      stat_evs (init_state (effective (map dec_entry tbl)) (ni npeers)) (map dec_ev evs) a
   | Crashed => a
   end.
 
-Definition stats (ks : list case) : list N := fold_left stats_case ks [0;0;0;0;0;0;0;0;0;0;0;0;0;0;0;0].
+Definition stats (ks : list case) : list N := fold_left stats_case ks [0;0;0;0;0;0;0;0;0;0;0;0;0;0;0;0;0].
